@@ -38,7 +38,7 @@ MANIFEST = {
 
 HERE = os.path.abspath(__file__)
 MP = refmp.build(b'BND', [(refmp.cd('t'), b'v%d'), (refmp.cd('f', 'n.bin', 'text/plain'), b'data%d')], epilogue=b'\r\n')[0]
-KINDS = ['getq', 'form', 'upload', 'raise', 'crash', '404', 'gen', 'wild', 'chunked', 'badform', 'badchunkj', 'badchunkh', 'notmod', 'rex', 'session']
+KINDS = ['getq', 'form', 'upload', 'raise', 'crash', '404', 'gen', 'wild', 'chunked', 'badform', 'badchunkj', 'badchunkh', 'notmod', 'rex', 'session', 'dm']
 SESSION_SECRET = 'k8'
 
 
@@ -46,8 +46,13 @@ def src_prefix():
     return os.path.join(os.path.realpath(sut.SRC), 'ombott') + os.sep
 
 
+def domain_of(host):
+    """the application serves two tenants under their own domains (config.domain_map)"""
+    return {'ta.example': 'ta', 'tb.example': 'tb'}.get(host)
+
+
 def make_app(om, obs):
-    app = om.Ombott()
+    app = om.Ombott({'domain_map': domain_of})
 
     def snap(tag, ident):
         rq, rs = app.request, app.response
@@ -151,6 +156,16 @@ def make_app(om, obs):
         app.response.set_cookie('sess', s, secret=SESSION_SECRET)
         return 'session:' + repr(sorted(s.items()))
     app.route('/session', 'GET', session)
+
+    def tenant(label):
+        def h():
+            ident = app.request.headers.get('X-Id')
+            snap('p1', ident)
+            app.response.set_cookie('tenant', label)
+            return f'tenant {label} for {ident}'
+        return h
+    app.route('/ta/dm', 'GET', tenant('A'))
+    app.route('/tb/dm', 'GET', tenant('B'))
     app.route('/notmod', 'GET', notmod)
     app.route('/chunked', 'POST', chunked)
     app.route('/badform', 'POST', badform)
@@ -193,6 +208,9 @@ def environ_for(kind, ident):
         return wsgi.environ('POST', '/chunked', qs='who=' + ident * (3 if kind == 'badchunkh' else 1), body=b'zz\r\n', chunked=True, headers=h2)
     if kind == 'notmod':
         return wsgi.environ('GET', '/notmod', qs='n=' + ident, headers=h)
+    if kind == 'dm':
+        # requests 1 and 2 come in for tenant A's domain, request 3 for tenant B's
+        return wsgi.environ('GET', '/dm', qs='d=' + ident, headers=dict(h, Host='tb.example' if ident == '3' else 'ta.example'))
     if kind == 'rex':
         return wsgi.environ('GET', '/media/%s/n%s' % (['img', 'doc', 'raw'][int(ident) % 3], ident), headers=h)
     if kind == 'session':
@@ -321,6 +339,7 @@ def shards(tier, seed):
         # one pair with two preemptions at function-entry granularity (the longest shards first)
         for kinds in QUICK_PAIRS:
             out += _split(om, kinds, 1, 4, False)
+        out += _split(om, ('dm', 'dm', 'dm'), 1, 12, False)
     else:
         for kinds in pairs():
             out += _split(om, kinds, 2, 16, 'call', 'call')
@@ -339,7 +358,7 @@ def shards(tier, seed):
 
 
 def bounds(tier, seed):
-    return {'request_kinds': KINDS, 'pairs': len(pairs()), 'preemption_bound': '1 at line granularity for 18 pairs and one triple' if tier == 'quick' else '2 at function-entry granularity for all pairs, 2 at line granularity for three pairs, 1 at line granularity for all pairs and five triples, 1 at opcode granularity (plumbing files) for two pairs',
+    return {'request_kinds': KINDS, 'pairs': len(pairs()), 'preemption_bound': '1 at line granularity for 20 pairs and two triples' if tier == 'quick' else '2 at function-entry granularity for all pairs, 2 at line granularity for three pairs, 1 at line granularity for all pairs and five triples, 1 at opcode granularity (plumbing files) for two pairs',
             'granularity': 'source line' + ('' if tier == 'quick' else '; opcode events in common_helpers.py/response.py for two pairs'),
             'threads': '2' if tier == 'quick' else '2-3'}
 
